@@ -77,13 +77,23 @@ def sortIt : Iter → Iter
   | [] => []
   | e :: r => insertIt e (sortIt r)
 
+/-- alg/mapiter.go:78 `append` / :95 appendGeneric: the text of a key (the specification's, plus `bool`) -/
+def keyTextM : GoType → GoVal → Option Bytes
+  | .bool, .bool b => some (if b then ascii "true" else ascii "false")
+  | k, a => keyText k a
+
 /-- alg/mapiter.go:78 `append`: the key's text becomes the key the iterator shows -/
 def renderKeys (k : GoType) : Iter → Option Iter
   | [] => some []
   | (a, v) :: r =>
-    match keyText k a, renderKeys k r with
+    match keyTextM k a, renderKeys k r with
     | some ks, some rs => some ((.str ks, v) :: rs)
     | _, _ => none
+
+/-- appendGeneric has no case for the float kinds: `vars.Error_type` -/
+def isFloatT : GoType → Bool
+  | .f32 | .f64 => true
+  | _ => false
 
 inductive StepRes where
   | next (pc : Nat) (r : Regs) (s : Stack) (b : Bytes)
@@ -207,7 +217,7 @@ def step (o : EncOpts) (ins : Instr) (pc : Nat) (r : Regs) (s : Stack) (b : Byte
       if o.sortMapKeys && !kvs.isEmpty then
         match renderKeys k kvs with
         | some it => .next (pc + 1) { r with q := some (sortIt it) } s b
-        | none => .err .stuck
+        | none => .err (if isFloatT k then .enc .unsupportedType else .stuck)
       else .next (pc + 1) { r with q := some kvs } s b
     | _, _ => .err .stuck
   | .mapStop => .next (pc + 1) { r with q := none } s b                       -- :218
